@@ -1,5 +1,7 @@
 package operationapplier
 
+// verif:requires Applier.verifyAnchoringTimeRange
+
 import "github.com/trustbloc/sidetree-core-go/pkg/api/protocol"
 
 // vSpecUntil is the effective end of the window, straight from the property statement (C05 / DESIGN B.3).
